@@ -17,7 +17,10 @@ def sh(cmd, cwd=None, env=None, timeout=7200):
 
 
 def main():
-    muts = sys.argv[1:] or sorted(d for d in os.listdir(os.path.join(VERIF, "seeded")) if os.path.isdir(os.path.join(VERIF, "seeded", d)))
+    targeted = "--targeted" in sys.argv
+    if targeted:
+        sys.argv.remove("--targeted")
+    muts = sys.argv[1:] or sorted(d for d in os.listdir(os.path.join(VERIF, "seeded")) if os.path.isfile(os.path.join(VERIF, "seeded", d, "patch.diff")))
     shutil.rmtree(ROOT, ignore_errors=True)
     os.makedirs(ROOT)
     sh("rsync -a --exclude target --exclude logs --exclude replays --exclude .git %s/ %s/verif/" % (VERIF, ROOT))
@@ -25,7 +28,7 @@ def main():
     sh("sed -i 's#path = \"/repo\"#path = \"%s/repo\"#' %s/verif/harness/Cargo.toml" % (ROOT, ROOT))
     repo = ROOT + "/repo"
     env = dict(os.environ, VERIF_NO_EVIDENCE="1")
-    out_path = os.path.join(VERIF, "seeded", "matrix.json")
+    out_path = os.path.join(VERIF, "seeded", "regress.json" if targeted else "matrix.json")
     matrix = {}
     if os.path.exists(out_path) and sys.argv[1:]:
         matrix = json.load(open(out_path))
@@ -36,13 +39,20 @@ def main():
                 matrix[m] = {"error": o[-300:]}
                 continue
             row = {}
-            for pid in ALL:
+            ids = ALL
+            if targeted and not m.startswith("benign"):
+                try:
+                    prop = json.load(open("%s/verif/seeded/%s/meta.json" % (ROOT, m))).get("property", "")
+                except Exception:
+                    prop = ""
+                ids = [prop] if prop in ALL else ALL
+            for pid in ids:
                 t = time.time()
                 rc, o = sh("./check %s --tier quick" % pid, cwd=ROOT + "/verif", env=env)
                 sigs = [l.strip().split(" ")[0].replace("signature=", "") for l in o.split("\n") if l.strip().startswith("signature=")]
                 row[pid] = {"exit": rc, "s": round(time.time() - t, 1), "signatures": sigs[:4]}
             matrix[m] = row
-            print(m, "caught by", [p for p in ALL if row[p]["exit"] == 1], "other", {p: row[p]["exit"] for p in ALL if row[p]["exit"] not in (0, 1)}, flush=True)
+            print(m, "caught by", [p for p in row if row[p]["exit"] == 1], "other", {p: row[p]["exit"] for p in row if row[p]["exit"] not in (0, 1)}, flush=True)
             json.dump(matrix, open(out_path, "w"), indent=1)
     finally:
         shutil.rmtree(ROOT, ignore_errors=True)
